@@ -112,6 +112,12 @@ fn main() {
                         else { sched::run_incr(&obs, &scenarios, &mut w, &scratch) };
             println!("{stats}");
         }
+        "backup" => {
+            let scenarios = read_ndjson(a.get("in").expect("--in"));
+            let out = std::fs::File::create(a.get("out").expect("--out")).unwrap();
+            let mut w = BufWriter::new(out);
+            println!("{}", sched::run_backup(&obs, &scenarios, &mut w, &scratch));
+        }
         "handles" => {
             let scenarios = read_ndjson(a.get("in").expect("--in"));
             let out = std::fs::File::create(a.get("out").expect("--out")).unwrap();
